@@ -62,6 +62,7 @@ def player_lists(chk):
 
 def maps(chk):
     from minecraft.networking.packets.clientbound.play import MapPacket as M
+    from minecraft.networking.connection import ConnectionContext
     rng, th = chk.rng, chk.tier == 'thorough'
     reqs, obs = [], []
     for trial in range(200 if th else 50):
@@ -81,7 +82,7 @@ def maps(chk):
             if rng.random() < 0.3 and w > 1:
                 npx -= rng.randrange(1, w)              # an incomplete last row: pixel i still lands at (i mod width, i div width)
             px = bytes(rng.randrange(256) for _ in range(npx))
-            pk = M()
+            pk = M() if rng.random() < 0.4 else M(context=ConnectionContext(protocol_version=rng.choice([379, 451, 452, 453, 471, 757])))      # the tracker ignores the packet's version
             pk.map_id, pk.scale, pk.icons = mid, rng.randrange(5), []
             pk.width, pk.height, pk.offset, pk.pixels = w, h, (ox, oz), px
             pk.is_tracking_position, pk.is_locked = rng.random() < 0.5, rng.random() < 0.5
